@@ -8,9 +8,11 @@ Case line:   <cap> <s|a> <fx> op*
   misc       snap
 `fx` selects the model's post-patch behaviour (docs/spmc.md); the implementation ignores it except
 for the harness's would-block guard.  FIXED below is what the generator emits."""
+import os
+
 from .flow import Engine
 
-FIXED = 0          # flip to 1 once the proposed patch (docs/spmc.md) is applied to /repo
+FIXED = int(os.environ.get("VERIF_SPMC_FIXED", "0"))   # set the default to 1 once the proposed patch (docs/spmc.md) is applied to /repo
 NW = 4
 
 ARITY = {"ts": 2, "sd": 2, "scl": 1, "sdr": 1, "scv": 1, "sob": 1, "tr": 2, "rv": 2, "rt": 2, "trb": 3,
